@@ -70,7 +70,16 @@ type M struct {
 	Nested []M      `json:"nested"`
 	Enums  []E      `json:"enums"`
 }
+// X is a custom option (extension of a google.protobuf.*Options message) declared by a file.
+type X struct {
+	Name     string `json:"name"`
+	Num      int32  `json:"num"`
+	Kind     string `json:"kind"`
+	Extendee string `json:"extendee"` // e.g. .google.protobuf.FieldOptions
+}
+
 type File struct {
+	Exts   []X      `json:"exts"`
 	Name   string   `json:"name"`   // e.g. verif/s0/s0.proto
 	Pkg    string   `json:"pkg"`    // proto package, e.g. verif.s0
 	GoPkg  string   `json:"gopkg"`  // last path element under GenPath
@@ -99,6 +108,9 @@ func (f *File) Canon() *File {
 	}
 	if f.Tags == nil {
 		f.Tags = []string{}
+	}
+	if f.Exts == nil {
+		f.Exts = []X{}
 	}
 	var fix func(ms []M)
 	fix = func(ms []M) {
@@ -313,6 +325,12 @@ func (f *File) ToProto() *descriptorpb.FileDescriptorProto {
 	}
 	for i := range f.Enums {
 		p.EnumType = append(p.EnumType, f.Enums[i].toProto())
+	}
+	for _, x := range f.Exts {
+		p.Extension = append(p.Extension, &descriptorpb.FieldDescriptorProto{
+			Name: proto.String(x.Name), Number: proto.Int32(x.Num), JsonName: proto.String(jsonName(x.Name)),
+			Label: descriptorpb.FieldDescriptorProto_LABEL_OPTIONAL.Enum(), Type: kindType[x.Kind].Enum(), Extendee: proto.String(x.Extendee),
+		})
 	}
 	return p
 }
@@ -651,8 +669,12 @@ func Cross() []*File {
 			}},
 		}}
 	xa2 := &File{Name: "verif/xa/xa2.proto", Pkg: "verif.xa", GoPkg: "xa", Group: "x", Tags: []string{"cross"},
-		Deps: []string{"verif/xb/xb.proto"},
-		Msgs: []M{{Name: "Second", Fields: []F{one("leaf", 1, "message", ".verif.xb.Leaf"), one("note", 2, "string")}}}}
+		Deps: []string{"verif/xb/xb.proto", "google/protobuf/any.proto"},
+		Msgs: []M{
+			{Name: "Second", Fields: []F{one("leaf", 1, "message", ".verif.xb.Leaf"), one("note", 2, "string")}},
+			// recursion THROUGH google.protobuf.Any (invisible in the descriptors) and several Anys alive at once
+			{Name: "Box", Fields: []F{one("inner", 1, "message", ".google.protobuf.Any"), one("n", 2, "int32"), rep("items", 3, "message", ".google.protobuf.Any")}},
+		}}
 	addr := one("addr", 1, "string")
 	addr.Scalar = "cosmos.AddressString"
 	acct := one("acct", 2, "message", ".google.protobuf.Any")
@@ -660,9 +682,19 @@ func Cross() []*File {
 	amt := rep("amounts", 3, "string")
 	amt.Scalar = "cosmos.Int"
 	opt := &File{Name: "verif/opt/opt.proto", Pkg: "verif.opt", GoPkg: "opt", Group: "opt", Tags: []string{"options"},
-		Deps: []string{"cosmos_proto/cosmos.proto", "google/protobuf/any.proto"},
+		Deps: []string{"cosmos_proto/cosmos.proto", "google/protobuf/any.proto", "google/protobuf/descriptor.proto"},
+		Exts: ExtSet("opt"),
 		Msgs: []M{{Name: "WithOptions", Implements: []string{"verif.opt.Account", "verif.opt.Other"}, Fields: []F{addr, acct, amt}}}}
 	return []*File{xb, xa2, xa, opt}
+}
+
+// ExtSet declares custom options on seven different options messages.
+func ExtSet(prefix string) []X {
+	var out []X
+	for i, e := range []string{"FileOptions", "MessageOptions", "FieldOptions", "EnumOptions", "EnumValueOptions", "OneofOptions", "ServiceOptions"} {
+		out = append(out, X{Name: prefix + "_" + strings.ToLower(e), Num: int32(51000 + i), Kind: []string{"string", "int32", "bool", "bytes"}[i%4], Extendee: ".google.protobuf." + e})
+	}
+	return out
 }
 
 // PluginUniverse is the file universe of spec/Plugin.tla: A (proto3), B (proto3, imports A, other
@@ -675,7 +707,14 @@ func PluginUniverse() map[string]*File {
 	d := &File{Name: "verif/p2/p2.proto", Pkg: "verif.p2", GoPkg: "p2", Group: "p2", Syntax: "proto2",
 		Msgs: []M{{Name: "Old", Fields: []F{one("a", 1, "int32"), one("b", 2, "string")}}}}
 	e := &File{Name: "verif/ex/ex.proto", Pkg: "verif.ex", GoPkg: "ex", Group: "ex",
-		Msgs: []M{{Name: "Lone", Oneofs: []string{"z"}, Fields: []F{one("a", 1, "sint64"), mp("m", 2, "string", "double"), oo("z", "zz", 3, "bool")}}}}
+		Deps: []string{"google/protobuf/descriptor.proto"},
+		Msgs: []M{
+			{Name: "Lone", Oneofs: []string{"z"}, Fields: []F{one("a", 1, "sint64"), mp("m", 2, "string", "double"), oo("z", "zz", 3, "bool")}},
+			// same short (Go) name as verif.xb.Leaf, with field names that must be renamed
+			{Name: "Leaf", Fields: []F{one("type", 1, "string"), one("descriptor", 2, "int32"), rep("get", 3, "bytes")}},
+			{Name: "Tree", Fields: []F{one("range", 1, "message", ".verif.ex.Leaf")}},
+		},
+		Exts: ExtSet("ex")}
 	return map[string]*File{"A": a, "B": b, "C": c, "D": d, "E": e, "xa2": cross[1]}
 }
 
